@@ -11,6 +11,7 @@ Generated model programs with an instrumented constructor:
   D  attrs specifics: Factory(takes_self=True) in every position, private names with aliases, validators, kw_only;
   E  dataclass kw_only / __post_init__, NamedTuple, TypedDict NotRequired, pydantic.
 """
+import collections
 import dataclasses
 import enum
 import functools
@@ -156,6 +157,10 @@ def make_default_model(kind, default):
 DEFAULT_KINDS = ("dataclass", "namedtuple", "attrs", "pydantic", "plaininit", "kwonlyinit")
 
 
+def _invented():
+    return "<invented by __missing__>"
+
+
 def leg_a(shard, report):
     for kind, dname in shard:
         default = D_BY_NAME[dname]
@@ -198,6 +203,44 @@ def leg_a(shard, report):
                 if kind not in ("namedtuple", "pydantic") and len(LOG) != 1:
                     report.violation({"check": "C08.ctor", "problem": "constructor_call_count"},
                                      f"{kind} default {dname}: constructor called {len(LOG)} times for one load", case)
+                if present:
+                    continue
+                # the key is absent also when the mapping would invent a value for it (__missing__): the model's default applies
+                for mname, mdata in (("defaultdict", collections.defaultdict(_invented, {"a": 1})), ("Counter", collections.Counter({"a": 1}))):
+                    report.evaluations += 1
+                    try:
+                        got_m = attrs_of(ld(mdata), ["a", "b"])
+                    except Exception as e:  # noqa: BLE001
+                        got_m = {"error": type(e).__name__}
+                    if not tsame(got_m, want):
+                        report.violation({"check": "C08.default", "problem": "missing_key_answered_by_the_mapping"},
+                                         f"{kind} with b = {dname}: loading {mname}({{'a': 1}}) [{mode_name(mode)}] gives "
+                                         f"{codec.show(got_m, 80)} but the key b is absent and the model itself holds {codec.show(want['b'], 60)}",
+                                         case)
+                # a default the loader built itself (not the model's own object) stays the declared default after a result was changed
+                loaded = got.get("b")
+                if isinstance(loaded, (list, dict, set)) and loaded is not default and tsame(got, want):
+                    if isinstance(loaded, list):
+                        loaded.append("changed by the caller")
+                    elif isinstance(loaded, dict):
+                        loaded["changed by the caller"] = 1
+                    else:
+                        loaded.add("changed by the caller")
+                    report.evaluations += 1
+                    again = attrs_of(ld({"a": 1}), ["a", "b"])
+                    fresh_own = attrs_of(cls(a=1) if kind != "namedtuple" else cls(1), ["a", "b"])
+                    if tsame(fresh_own, want) and not tsame(again, want):
+                        report.violation({"check": "C08.default", "problem": "default_changed_by_an_earlier_result"},
+                                         f"{kind} with b = {dname} [{mode_name(mode)}]: after the b of one loaded object was changed, the next "
+                                         f"load gives b = {codec.show(again.get('b'), 60)}; the declared default is {codec.show(want['b'], 60)}",
+                                         case)
+                    # undo, the alphabet object may be the same
+                    if isinstance(loaded, list):
+                        loaded.pop()
+                    elif isinstance(loaded, dict):
+                        del loaded["changed by the caller"]
+                    else:
+                        loaded.discard("changed by the caller")
 
 
 # ------------------------------------------------------------------------------------------------------------
